@@ -209,6 +209,59 @@ pub fn adf_large(nlo: usize, nhi: usize, sup: usize, depth: u32) -> BoxedStrateg
         .boxed()
 }
 
+/// ADFs with MANY two-valued models (tens to hundreds) of which only some are stable: n statements made of small
+/// components (self-supporters, mutual attacks, exclusive triangles, facts) plus links to other statements; every
+/// acceptance condition mentions at most 3 statements.
+pub fn adf_many_models(nlo: usize, nhi: usize) -> BoxedStrategy<Vec<F>> {
+    (nlo..=nhi)
+        .prop_flat_map(|n| (Just(n), vec((0u8..12, any::<u16>(), any::<u16>()), n), Just((0..n).collect::<Vec<usize>>()).prop_shuffle()))
+        .prop_map(|(n, spec, order)| {
+            let mut acs: Vec<F> = vec![F::Top; n];
+            let mut i = 0;
+            let mut self_supporters = 0;
+            while i < n {
+                let (kind, x, y) = spec[i];
+                let s = order[i];
+                let other = |sel: u16| order[pick(sel, n)];
+                match kind {
+                    // mutual attack (2 models per pair, both stable)
+                    0..=3 if i + 1 < n => {
+                        let t = order[i + 1];
+                        acs[s] = F::not(F::Atom(t));
+                        acs[t] = F::not(F::Atom(s));
+                        i += 2;
+                        continue;
+                    }
+                    // exclusive triangle (3 models, all stable)
+                    4 | 5 if i + 2 < n => {
+                        let (t, u) = (order[i + 1], order[i + 2]);
+                        acs[s] = F::and(F::not(F::Atom(t)), F::not(F::Atom(u)));
+                        acs[t] = F::and(F::not(F::Atom(s)), F::not(F::Atom(u)));
+                        acs[u] = F::and(F::not(F::Atom(s)), F::not(F::Atom(t)));
+                        i += 3;
+                        continue;
+                    }
+                    // self-supporter (2 models, only `false` stable); at most 5 of them
+                    6 | 7 if self_supporters < 5 => {
+                        self_supporters += 1;
+                        acs[s] = match x % 3 {
+                            0 => F::Atom(s),
+                            1 => F::or(F::Atom(s), F::not(F::Atom(other(y)))),
+                            _ => F::and(F::Atom(s), F::or(F::Atom(other(y)), F::not(F::Atom(other(x))))),
+                        };
+                    }
+                    8 => acs[s] = F::not(F::Atom(other(x))),
+                    9 => acs[s] = F::or(F::Atom(other(x)), F::not(F::Atom(other(y)))),
+                    10 => acs[s] = if x & 1 == 1 { F::Top } else { F::Bot },
+                    _ => acs[s] = F::and(F::not(F::Atom(other(x))), F::not(F::Atom(other(y)))),
+                }
+                i += 1;
+            }
+            acs
+        })
+        .boxed()
+}
+
 // ------------------------------------------------------------------------------------------
 // labels
 
